@@ -188,6 +188,9 @@ func catalogue() []edit {
 	add("unknown-base-service", "struct-as-base", "service ZB extends {P}CS {}")
 	add("union-second-default", "two", "union ZU2 { 1: i32 a = 1, 2: i32 b = 2 }")
 	add("union-second-default", "three", "union ZU2 { 1: i32 a, 2: string b = \"x\", 3: list<i32> c = [1] }")
+	add("union-second-default", "separated", "union ZU2 { 1: i32 a = 1, 2: string b, 3: string c = \"x\" }")
+	add("union-second-default", "first-and-last-of-five", "union ZU2 { 1: i32 a = 1, 2: string b, 3: i64 c, 4: bool d, 5: double e = 1.5 }")
+	add("union-second-default", "three-alternating", "union ZU2 { 1: i32 a = 1, 2: string b, 3: i32 c = 2, 4: string d, 5: i32 e = 3 }")
 	return es
 }
 
